@@ -1,6 +1,8 @@
 /- driver family `kern`: kernel ports evaluated in IEEE double; floats travel as bit patterns -/
 import MagpyVerif.Model.Kernels
 import MagpyVerif.Model.Cylinder
+import MagpyVerif.Model.CylSegWrap
+import MagpyVerif.Model.CylSegSpecial
 import MagpyVerif.Gen.Const
 import Driver.Parse
 
@@ -20,6 +22,18 @@ instance : Num Float where
   atan2 := Float.atan2
   sin := Float.sin
   cos := Float.cos
+
+instance : NumX Float where
+  tan := Float.tan
+  atan := Float.atan
+  atanh := Float.atanh
+  sgn := CylSegF.sgnF
+  round := CylSegF.rint
+  ceil := Float.ceil
+  pymod := CylSegF.pymodF
+  ellipkinc := CylSegF.ellipkincF
+  ellipeinc := CylSegF.ellipeincF
+  el3angle := CylSegF.el3Angle
 
 def flt : P Float := do
   let k ← nat
@@ -85,6 +99,41 @@ def run : P String := do
       let r0 := d / 2.0
       let m := cylMasks (h / 2.0 / r0) (Float.sqrt (x.x * x.x + x.y * x.y) / r0) (x.z / r0)
       pure s!"{m.inside} {m.onEdge}"
+  | "cylsegcase" => do
+      let r ← flt; let phi ← flt; let z ← flt; let r1 ← flt; let phi1 ← flt; let z1 ← flt
+      pure s!"{CylSeg.determine_cases r phi z r1 phi1 z1}"
+  | "cylsegblock" => do
+      let r ← flt; let phi ← flt; let z ← flt; let ri ← flt; let pj ← flt; let zk ← flt; let pm ← flt; let tm ← flt
+      let cid := CylSeg.determine_cases r phi z ri pj zk
+      match CylSeg.caseDispatch cid (CylSeg.allArgs r phi z ri pj zk pm tm) with
+      | some b => pure s!"{cid} {out b.x} {out b.y} {out b.z}"
+      | none => pure s!"{cid} none"
+  | "cylsegH" => do
+      let r ← flt; let phi ← flt; let z ← flt
+      let r1 ← flt; let r2 ← flt; let p1 ← flt; let p2 ← flt; let z1 ← flt; let z2 ← flt
+      let m ← flt; let pm ← flt; let tm ← flt
+      match CylSeg.segH r phi z r1 r2 p1 p2 z1 z2 m pm tm with
+      | some v => pure (out v)
+      | none => pure "none"
+  | "cylseg" => do
+      let mode ← tok
+      let f ← field; let x ← v3
+      let r1 ← flt; let r2 ← flt; let h ← flt; let p1 ← flt; let p2 ← flt
+      let pol ← v3
+      let res := if mode == "int" then CylSeg.bhjmCylSegInternal 200 f x r1 r2 h p1 p2 pol
+                 else CylSeg.bhjmCylSeg f x r1 r2 h p1 p2 pol
+      match res with
+      | some v => pure (out v)
+      | none => pure "none"
+  | "cylsegell" => do
+      let phi ← flt; let m ← flt
+      pure s!"{(CylSegF.ellipkincF phi m).toBits} {(CylSegF.ellipeincF phi m).toBits}"
+  | "cylsegel3" => do
+      let phi ← flt; let nn ← flt; let m ← flt
+      pure s!"{(CylSegF.el3Angle phi nn m).toBits}"
+  | "cylsegatan" => do
+      let k ← flt; let phi ← flt
+      pure s!"{(CylSeg.arctan_k_tan_2 k phi).toBits}"
   | t => throw s!"unknown kern command {t}"
 
 def step (line : String) : String :=
